@@ -280,7 +280,27 @@ theorem exec_inv {c : FxVerif.Gen.C11.Cfg} (hg : good c = true) {s s' : State} {
   | block =>
     simp only [State.exec] at h
     cases h
-    exact ⟨hi, rfl⟩
+    refine ⟨fun w => ?_, rfl⟩
+    show SumInv s.nAcc ((s.vs w).endBlock s.height)
+    unfold VS.endBlock
+    dsimp only
+    split
+    · exact hi w
+    · split
+      · exact hi w
+      · exact hi w
+  | jail v =>
+    simp only [State.exec] at h
+    split at h
+    · cases h
+    · cases h
+      exact ⟨StInv_setVS hi (hi v), rfl⟩
+  | unjail v =>
+    simp only [State.exec] at h
+    split at h
+    · cases h
+    · cases h
+      exact ⟨StInv_setVS hi (hi v), rfl⟩
 
 theorem step_inv {c : FxVerif.Gen.C11.Cfg} (hg : good c = true) {s : State} (o : Op) (hi : StInv s) :
     StInv (s.step c o) ∧ (s.step c o).nAcc = s.nAcc := by
@@ -638,6 +658,14 @@ example : isOk ((demo.vs 0).withdrawMsg (demo.height + 3) 1) = true ∧ isOk ((d
 -- referenced by the slash event, and three starting infos (operator, sender, recipient)
 example : (demo.vs 0).refs ((demo.vs 0).period - 1) = 2 ∧ slashCnt (demo.vs 0) 5 = 1 ∧ (demo.vs 0).refs 5 = 1 ∧
     (List.range (demo.vs 0).period).map (fun p => infoCnt 4 (demo.vs 0) p) = [0, 1, 0, 0, 0, 0, 0, 0, 0, 1, 1] := by
+  decide
+-- every status: a validator that was jailed and left the active set (Unbonding) still pays the rewards accrued while it
+-- was bonded when shares are transferred (all the transfer theorems above quantify over histories with jail / unjail
+-- operations and over the validator-set update at the end of every block)
+example :
+    let s := (init 4 1 [(200000000000000000000, 0)]).run cfg [.delegate 1 0 500, .delegate 2 0 300, .alloc 0 77000000000000000000000, .jail 0, .block]
+    (s.vs 0).bonded = false ∧ (s.vs 0).jailed = true ∧
+    ((s.exec cfg (.transfer 1 2 0 200)).toOption.map (fun s' => decide (0 < s'.gain 1) && decide (0 < s'.gain 2))) = some true := by
   decide
 -- the refusal while the sender has an incoming redelegation is reachable
 example : isOk (((init 4 1 [(1000, 0), (1000, 0)]).run cfg [.delegate 2 0 500, .delegate 2 1 500, .redelegate 2 0 1 100]).exec cfg
